@@ -281,6 +281,9 @@ pub struct Sub {
     pub notes: Vec<String>,
     pub wall_ms: u64,
     pub degenerate: Option<String>,
+    /// a supplementary (sampling) sub-check next to sub-checks that enumerate the stated domain
+    /// completely; it does not turn the run's `exhaustive` flag off
+    pub supplementary: bool,
 }
 
 impl Sub {
@@ -304,6 +307,7 @@ impl Sub {
             notes: Vec::new(),
             wall_ms: 0,
             degenerate: None,
+            supplementary: false,
         }
     }
 
@@ -424,6 +428,7 @@ impl Sub {
         self.transitions += o.transitions;
         self.notes.extend(o.notes);
         self.wall_ms = self.wall_ms.max(o.wall_ms);
+        self.supplementary |= o.supplementary;
         if self.degenerate.is_none() {
             self.degenerate = o.degenerate;
         }
@@ -474,6 +479,7 @@ impl Sub {
             "notes": self.notes,
             "wall_ms": self.wall_ms,
             "generator_degenerate": self.degenerate,
+            "supplementary": self.supplementary,
             "failures": self.failures.values().map(|f| json!({"sig": f.sig, "count": f.count, "detail": f.detail, "case": f.case})).collect::<Vec<_>>(),
         })
     }
@@ -765,7 +771,7 @@ pub fn finish(
     for sub in &report.subs {
         evals += sub.evals;
         nt += sub.distinct_nontrivial();
-        exhaustive &= sub.exhaustive;
+        exhaustive &= sub.exhaustive || sub.supplementary;
         states += sub.states;
         transitions += sub.transitions;
         excluded += sub.excluded_known;
